@@ -12,6 +12,8 @@ from ksym.values import Sym, SymBool, SymInt
 from stubs import cryptoshim
 
 BOUNDED = ('lfu', 'lru', 'mru', 'rr')
+PERSISTENT_BACKENDS = ('file', 'dir', 'sql')
+ARG_UNIVERSE = (1, 2, 3)
 ALGOS = ('no', 'inf') + BOUNDED
 
 
@@ -53,19 +55,41 @@ class Hist:
         undo1 = cryptoshim.install()
         saved = _random.choice
         _random.choice = sym_choice
+        undo2 = lambda: None
+        if self.cfg['backend'] in PERSISTENT_BACKENDS:
+            from harness import arch
+            from stubs import sqlshim
+            u_fs = arch.installer().install()
+            self.shim, u_sql = sqlshim.install()
+            undo2 = lambda: (u_sql(), u_fs())
 
         def undo():
             _random.choice = saved
+            undo2()
             undo1()
         return undo
 
-    def replay_install(self, assignment):
+    def replay(self, assignment, label):
+        """real code on plain values; persistent backends on the real file system in a scratch directory"""
+        import os, shutil, tempfile
+        from ksym.core import ReplayCtx
+        from stubs import sqlshim
         saved = _random.choice
         _random.choice = sym_choice      # RR's victim = the model's choice (a possible outcome of random.choice)
-
-        def undo():
+        d = tempfile.mkdtemp(prefix='ksym_replay_')
+        cwd = os.getcwd()
+        shim, undo = sqlshim.install()   # only marshals the concrete stand-ins of atoms into sqlite values
+        try:
+            os.chdir(d)
+            r = ReplayCtx(assignment).run(self.fn)
+        finally:
+            os.chdir(cwd)
+            undo()
             _random.choice = saved
-        return undo
+            shutil.rmtree(d, ignore_errors=True)
+        prop = label.split(':')[0]
+        failed = [f for f in r.failed if f[0].split(':')[0] == prop]
+        return bool(failed), {'failed': [[f[0], f[1]] for f in r.failed[:5]], 'diverged': r.diverged[:5]}
 
     def signature(self, label, info):
         info = info or {}
@@ -98,6 +122,12 @@ class Hist:
             return KA.dict_archive('a', cached=True)
         if b == 'direct':
             return KA.dict_archive('a', cached=False)
+        if b == 'file':
+            return KA.file_archive('memo.pkl', cached=True)
+        if b == 'dir':
+            return KA.dir_archive('memo', cached=True)
+        if b == 'sql':
+            return KA.sqltable_archive('sqlite:///:memory:?table=memo', cached=True)
         raise ValueError(b)
 
     def _decorate(self, ctx, f, cache, maxsize):
@@ -123,6 +153,10 @@ class Hist:
         canary = cfg.get('canary')
         algo = cfg['algo']
         evals = []
+        if cfg['backend'] in PERSISTENT_BACKENDS and not ctx.concrete():
+            from harness import arch
+            arch.installer().fresh()
+            self.shim.close_all()
         shape = cfg.get('shape', 'x')
         if shape == 'x':
             def f(x):
@@ -180,7 +214,10 @@ class Hist:
         for i in range(N):
             op = alphabet[ctx.choice(len(alphabet), 'op')] if mgmt else 'call'
             if op == 'call':
-                x = ctx.atom(ArgSort, 'x')
+                if cfg['backend'] in PERSISTENT_BACKENDS:
+                    x = ARG_UNIVERSE[ctx.choice(len(ARG_UNIVERSE), 'xi')]     # keys become file names / SQL parameters
+                else:
+                    x = ctx.atom(ArgSort, 'x')
                 if fixed is not None and i < len(fixed) and fixed[i] is not None:
                     ctx.assume(x == atoms[fixed[i]])
                 atoms.append(x)
@@ -203,7 +240,7 @@ class _State:
         self.purge = cfg.get('purge', False) or self.algo == 'no'
         self.hit = self.miss = self.load = 0
         self.calls = 0
-        self.lossless = cfg['backend'] in ('cached_dict',)
+        self.lossless = cfg['backend'] in ('cached_dict',) + PERSISTENT_BACKENDS
         self.reps = []           # representative key per key class
         self.last_use = {}       # class id -> step
         self.count = {}          # class id -> uses since it entered memory
@@ -522,6 +559,14 @@ def plan(prop, tier):
                         add(module=m, algo=a, purge=p, backend='direct', keymap='raw', N=3, ops='mgmt')
                 if prop in ('C01', 'C15'):
                     add(module=m, algo=a, backend='cached_dict', keymap='raw', shape='xy', N=2 if q else 3)
+                # persistent archives behind the cache (model file system / real sqlite), concrete argument universe
+                if m == 'std' or not q:
+                    for b in PERSISTENT_BACKENDS:
+                        add(module=m, algo=a, backend=b, keymap='strflat' if b == 'sql' else 'raw', N=3 if q else 4)
+                        if a in BOUNDED and not q:
+                            add(module=m, algo=a, purge=True, backend=b, keymap='strflat' if b == 'sql' else 'raw', N=4)
+                        if not q and a in ('no', 'lru'):
+                            add(module=m, algo=a, backend=b, keymap='strflat' if b == 'sql' else 'raw', N=3, ops='mgmt')
                 if prop == 'C02':
                     add(module=m, algo=a, backend='cached_dict', keymap='raw', N=4 if q else 6, second=2 if q else 3, scenario='second')
         add(module='std', algo='lru', backend='cached_dict', keymap='raw', N=3, canary=True)
@@ -565,5 +610,8 @@ def plan(prop, tier):
                     add(module=m, algo=a, purge=p, backend='cached_dict', N=N)
                     if not q:
                         add(module=m, algo=a, purge=p, backend='cached_dict', keymap='str', N=5)
+                    if m == 'std' or not q:
+                        for b in PERSISTENT_BACKENDS:
+                            add(module=m, algo=a, purge=p, backend=b, keymap='strflat' if b == 'sql' else 'raw', N=3 if q else 4, maxsize=1 if q else 'sym')
         add(module='std', algo='lru', backend='cached_dict', N=4, canary=True)
     return cfgs
